@@ -33,7 +33,7 @@ import numpy as np
 from harness import tlc
 from harness.util import Hang, time_limit
 
-ALL_FIXES = ["posterior_snapshot", "sampling_flag_reset", "algorithm_checked_first", "init_scan_checked", "empty_result_refused", "warmup_zero",
+ALL_FIXES = ["posterior_snapshot", "sampling_flag_reset", "arguments_checked_first", "init_scan_checked", "empty_result_refused", "warmup_zero",
              "metropolis_total", "sample_reports_n_sim", "optimise_at_initial"]
 CALL_LIMIT_S = 90
 BOUNDS = (-1.0, 2.0)
@@ -244,8 +244,11 @@ def probe(dim):
 def gp_view(model, dim):
     """what a posterior's surrogate predicts (mean and variance) on five points across the bounds"""
     pts = np.linspace(BOUNDS[0] + 0.1, BOUNDS[1] - 0.1, 5)[:, None] * np.ones((1, dim))
-    mu, var = model.predict(pts)
-    return np.concatenate([np.ravel(mu), np.ravel(var)])
+    out = []
+    for x in pts:          # one point at a time (with is_sampling set, predict returns a full covariance matrix for several points)
+        mu, var = model.predict(x[None, :])
+        out += [float(np.ravel(mu)[0]), float(np.ravel(var)[0])]
+    return np.array(out)
 
 
 def close_all(a, b):
@@ -602,7 +605,7 @@ ACTIONS = ["CallSetObjective", "CallIterate", "CallInfer", "CallFit", "CallExtra
 PROFILES_Q = ["plain", "warmup0", "metropolis", "bogus", "chains3", "initials_bad", "last_is_bad"]
 PROFILES_T = PROFILES_Q + ["warmup1", "warmup_all", "initials_ok", "initials_shape", "best_is_bad"]
 # which invariant TLC refutes first when the repair is left out
-CONTROL_OF = dict(posterior_snapshot="PosteriorSnapshot", sampling_flag_reset="RefusedChangesNothing", algorithm_checked_first="RefusedChangesNothing",
+CONTROL_OF = dict(posterior_snapshot="PosteriorSnapshot", sampling_flag_reset="RefusedChangesNothing", arguments_checked_first="RefusedChangesNothing",
                   init_scan_checked="OnlyRefusals", empty_result_refused="OnlyRefusals", warmup_zero="WarmupRespected",
                   metropolis_total="NSamplesIncludesWarmup", sample_reports_n_sim="ReportedNSim", optimise_at_initial="AcqOnOptimisedGP")
 
@@ -695,7 +698,7 @@ def design_jobs(ctx):
         label="BolfiPipeline as the code is: stagewise = composed, bookkeeping, acquisitions saw all evidence, sample rows, fit reaches, append-only")
     # negative controls: leave one repair out and a user-level invariant breaks; the code machine breaks split independence; batches overshoot
     ctl = []
-    for f in (["posterior_snapshot", "sampling_flag_reset", "algorithm_checked_first", "init_scan_checked"] if q else ALL_FIXES):
+    for f in (["posterior_snapshot", "sampling_flag_reset", "arguments_checked_first", "init_scan_checked"] if q else ALL_FIXES):
         ctl.append(("without_" + f, mc_cfg([x for x in ALL_FIXES if x != f], INV_USER, kinds=("int", "dict") if f != "empty_result_refused" else ("int",)),
                     [CONTROL_OF[f]], "BolfiPipeline control: the real pipeline without the repair '%s'" % f))
     ctl.append(("code_split", mc_cfg([], ["SplitIndependent"], kinds=("int",), bss=(1,)), ["SplitIndependent"],
